@@ -3,6 +3,7 @@ package chainclients
 import (
 	"bytes"
 	"encoding/hex"
+	"errors"
 	"fmt"
 	"runtime"
 	"strings"
@@ -26,13 +27,22 @@ import (
 type blkRef struct {
 	Fixture int    `json:"fixture"`
 	Salt    uint64 `json:"salt"`
+	Pad     int    `json:"pad,omitempty"` // >0: a synthetic one-element CBOR array holding a byte string of this length (raw callback only; sizes around the 64 KiB segment boundary)
 }
 
-func (r blkRef) get() blk { return variant(bases()[r.Fixture], r.Salt) }
+func (r blkRef) get() blk {
+	if r.Pad > 0 {
+		p := make([]byte, r.Pad)
+		for i := range p {
+			p[i] = byte(i*7 + r.Pad)
+		}
+		return blk{Name: fmt.Sprintf("pad%d", r.Pad), Type: 7, Bytes: xcbor.A(xcbor.B(p)).Encode()}
+	}
+	return variant(bases()[r.Fixture], r.Salt)
+}
 
-// genEBB: whether the 650 KiB epoch boundary block may be drawn. It is switched
-// off for connections whose protocol timeouts are scaled down to 300 ms (its
-// transfer through a 1-byte-read pipe alone can take longer than that).
+// genEBB: whether the 650 KiB epoch boundary block may be drawn (thorough tier,
+// connections with generous protocol timeouts only).
 var genEBB = false
 
 func genRef(rt *rapid.T, label string) blkRef {
@@ -55,24 +65,36 @@ const (
 	shBatch    = "batch"          // range request: StartBatch, 0..n blocks, BatchDone
 )
 
+// special values for points
+var (
+	specialSlots  = []uint64{0, 1, 1 << 32, 1 << 63, ^uint64(0)}
+	specialHashes = []string{strings.Repeat("00", 32), strings.Repeat("ff", 32)}
+)
+
 type c23Op struct {
-	Kind      string   `json:"kind"` // "single" | "range"
-	Shape     string   `json:"shape"`
-	ReqHash   string   `json:"req_hash"` // hex; the hash of the requested point
-	ReqSlot   uint64   `json:"req_slot"`
-	ReqIsRand bool     `json:"req_is_random_hash"`
+	Kind      string   `json:"kind"`             // "single" | "range" | "restart" (client.Stop(); client.Start())
+	Queued    bool     `json:"queued,omitempty"` // launched from another goroutine while the previous request is still unanswered (the server's answer is gated by the harness)
+	Shape     string   `json:"shape,omitempty"`
+	ReqHash   string   `json:"req_hash,omitempty"` // hex; the hash of the requested (start) point
+	ReqSlot   uint64   `json:"req_slot,omitempty"`
+	ReqOrigin bool     `json:"req_origin,omitempty"` // the (start) point is the origin
+	ReqIsRand bool     `json:"req_is_random_hash,omitempty"`
 	EndHash   string   `json:"end_hash,omitempty"` // range: end point
 	EndSlot   uint64   `json:"end_slot,omitempty"`
-	Serve     []blkRef `json:"serve"`
-	Flush     []bool   `json:"flush"`  // flush[i]: write to the conn after message i (last is always flushed)
-	GapUs     []int    `json:"gap_us"` // pause after a flush
-	SegMax    int      `json:"seg_max"`
-	CbDelayUs int      `json:"cb_delay_us"`
+	Serve     []blkRef `json:"serve,omitempty"`
+	Flush     []bool   `json:"flush,omitempty"`  // flush[i]: write to the conn after message i (last is always flushed)
+	GapUs     []int    `json:"gap_us,omitempty"` // pause after a flush
+	SegMax    int      `json:"seg_max,omitempty"`
+	CbDelayUs int      `json:"cb_delay_us,omitempty"`
+	CbErrAt   int      `json:"callback_error_at,omitempty"` // range: the block callback returns an error at this (1-based) block
+	Silent    bool     `json:"silent_server,omitempty"`     // the server never answers: the client's 300 ms batch-start timeout has to end the call
 }
 
 type c23Case struct {
 	Raw        bool    `json:"raw_callback"`
 	SkipValid  bool    `json:"skip_block_validation"`
+	Scribble   bool    `json:"scribble_received,omitempty"` // raw callback overwrites the slice it was handed (after copying it)
+	QueueGapUs int     `json:"queue_gap_us,omitempty"`      // time given to queued callers to reach the client's busy lock
 	ClientPlan string  `json:"client_read_plan"`
 	ServerPlan string  `json:"server_read_plan"`
 	Ops        []c23Op `json:"ops"`
@@ -81,9 +103,18 @@ type c23Case struct {
 func (c *c23Case) hasEBB() bool {
 	for _, op := range c.Ops {
 		for _, r := range op.Serve {
-			if r.Fixture == nSmall() {
+			if r.Pad == 0 && r.Fixture == nSmall() {
 				return true
 			}
+		}
+	}
+	return false
+}
+
+func (c *c23Case) hasSilent() bool {
+	for _, op := range c.Ops {
+		if op.Silent {
+			return true
 		}
 	}
 	return false
@@ -93,7 +124,38 @@ func isBadShape(op c23Op) bool {
 	return op.Kind == "single" && (op.Shape == shEmpty || op.Shape == shNonMatch || op.Shape == shSeveral)
 }
 
-func genC23Op(rt *rapid.T, i int, last bool, allowBad func(shape string) bool) c23Op {
+// points returns the points of the call, each with its own fresh hash buffer.
+func (op c23Op) points() (start, end pcommon.Point) {
+	mk := func(origin bool, slot uint64, h string) pcommon.Point {
+		if origin {
+			return pcommon.NewPointOrigin()
+		}
+		b, _ := hex.DecodeString(h)
+		return pcommon.NewPoint(slot, b)
+	}
+	start = mk(op.ReqOrigin, op.ReqSlot, op.ReqHash)
+	if op.Kind == "range" {
+		end = mk(false, op.EndSlot, op.EndHash)
+	} else {
+		end = mk(op.ReqOrigin, op.ReqSlot, op.ReqHash)
+	}
+	return
+}
+
+func (op c23Op) wire() []byte {
+	st, en := op.points()
+	return xcbor.A(xcbor.U(0), pointNode(st.Slot, st.Hash), pointNode(en.Slot, en.Hash)).Encode()
+}
+
+func fillFlush(op *c23Op) {
+	op.Flush, op.GapUs = nil, nil
+	for range opMessages(*op) {
+		op.Flush = append(op.Flush, true)
+		op.GapUs = append(op.GapUs, 0)
+	}
+}
+
+func genC23Op(rt *rapid.T, i int) c23Op {
 	l := fmt.Sprintf("op%d", i)
 	op := c23Op{}
 	if rapid.IntRange(0, 2).Draw(rt, l+"_kind") == 0 {
@@ -103,47 +165,57 @@ func genC23Op(rt *rapid.T, i int, last bool, allowBad func(shape string) bool) c
 	}
 	op.SegMax = rapid.SampledFrom([]int{0, 0, 700, 4096, 20000}).Draw(rt, l+"_segmax")
 	op.CbDelayUs = rapid.SampledFrom([]int{0, 0, 0, 50, 500, 3000}).Draw(rt, l+"_cbdelay")
-	nmsg := 0
+	specSlot := func(label string, dflt uint64) uint64 {
+		switch rapid.IntRange(0, 7).Draw(rt, label+"_slotclass") {
+		case 0:
+			return rapid.SampledFrom(specialSlots).Draw(rt, label+"_specslot")
+		case 1:
+			return rapid.Uint64Range(0, 1<<40).Draw(rt, label+"_slot")
+		}
+		return dflt
+	}
+	randHash := func(label string) string {
+		if rapid.IntRange(0, 3).Draw(rt, label+"_spechash") == 0 {
+			return rapid.SampledFrom(specialHashes).Draw(rt, label+"_spec")
+		}
+		return hex.EncodeToString(rapid.SliceOfN(rapid.Byte(), 32, 32).Draw(rt, label))
+	}
 	if op.Kind == "range" {
 		if rapid.IntRange(0, 7).Draw(rt, l+"_noblocks") == 0 {
 			op.Shape = shNoBlocks
-			nmsg = 1
 		} else {
 			op.Shape = shBatch
-			n := rapid.IntRange(0, 12).Draw(rt, l+"_n")
+			n := rapid.SampledFrom([]int{0, 1, 1, 2, 3, 5, 8, 12}).Draw(rt, l+"_n")
 			for j := 0; j < n; j++ {
 				op.Serve = append(op.Serve, genRef(rt, fmt.Sprintf("%s_b%d", l, j)))
 			}
-			nmsg = n + 2
 		}
-		if len(op.Serve) > 0 && rapid.Bool().Draw(rt, l+"_ptsFromBlocks") {
+		switch pts := rapid.IntRange(0, 5).Draw(rt, l+"_pts"); {
+		case len(op.Serve) > 0 && pts <= 2:
 			f, e := op.Serve[0].get(), op.Serve[len(op.Serve)-1].get()
-			op.ReqHash, op.ReqSlot = hex.EncodeToString(f.Hash), f.Slot
-			op.EndHash, op.EndSlot = hex.EncodeToString(e.Hash), e.Slot
-		} else {
-			h1 := rapid.SliceOfN(rapid.Byte(), 32, 32).Draw(rt, l+"_starthash")
-			h2 := rapid.SliceOfN(rapid.Byte(), 32, 32).Draw(rt, l+"_endhash")
-			op.ReqHash, op.ReqSlot = hex.EncodeToString(h1), rapid.Uint64Range(0, 1<<40).Draw(rt, l+"_startslot")
-			op.EndHash, op.EndSlot = hex.EncodeToString(h2), rapid.Uint64Range(0, 1<<40).Draw(rt, l+"_endslot")
+			op.ReqHash, op.ReqSlot = hex.EncodeToString(f.Hash), specSlot(l+"_start", f.Slot)
+			op.EndHash, op.EndSlot = hex.EncodeToString(e.Hash), specSlot(l+"_end", e.Slot)
+		case pts == 3: // start == end
+			op.ReqHash, op.ReqSlot = randHash(l+"_samehash"), specSlot(l+"_same", 77)
+			op.EndHash, op.EndSlot = op.ReqHash, op.ReqSlot
+			op.ReqIsRand = true
+		case pts == 4: // from the origin
+			op.ReqOrigin = true
+			op.EndHash, op.EndSlot = randHash(l+"_endhash"), specSlot(l+"_end", 4242)
+			op.ReqIsRand = true
+		default:
+			op.ReqHash, op.ReqSlot = randHash(l+"_starthash"), specSlot(l+"_start", 1000)
+			op.EndHash, op.EndSlot = randHash(l+"_endhash"), specSlot(l+"_end", 2000)
 			op.ReqIsRand = true
 		}
 	} else {
-		shapes := []string{shMatch, shMatch, shNoBlocks}
-		if last {
-			// a misbehaving server ends the case: the client may legitimately
-			// tear the connection down when it detects the misbehaviour
-			shapes = []string{shMatch, shNoBlocks, shEmpty, shNonMatch, shNonMatch, shSeveral, shSeveral}
-		}
-		op.Shape = rapid.SampledFrom(shapes).Draw(rt, l+"_shape")
-		if isBadShape(op) && !allowBad(op.Shape) {
-			op.Shape = shNoBlocks
-		}
+		// misbehaving answers are ordinary steps: the requests after them must
+		// still get exactly their own answers (or fail because the client closed
+		// the connection)
+		op.Shape = rapid.SampledFrom([]string{shMatch, shMatch, shMatch, shMatch, shNoBlocks, shNoBlocks, shEmpty, shNonMatch, shNonMatch, shSeveral}).Draw(rt, l+"_shape")
 		want := genRef(rt, l+"_want")
 		wb := want.get()
-		op.ReqHash, op.ReqSlot = hex.EncodeToString(wb.Hash), wb.Slot
-		if rapid.IntRange(0, 4).Draw(rt, l+"_slotrand") == 0 {
-			op.ReqSlot = rapid.Uint64Range(0, 1<<40).Draw(rt, l+"_slot")
-		}
+		op.ReqHash, op.ReqSlot = hex.EncodeToString(wb.Hash), specSlot(l+"_req", wb.Slot)
 		other := func(label string) blkRef {
 			// a block whose hash differs from the requested one; biased to
 			// "a sibling variant of the same fixture" (same slot, same body)
@@ -160,23 +232,24 @@ func genC23Op(rt *rapid.T, i int, last bool, allowBad func(shape string) bool) c
 		}
 		switch op.Shape {
 		case shNoBlocks:
-			nmsg = 1
-		case shEmpty:
-			nmsg = 2
+			if rapid.IntRange(0, 5).Draw(rt, l+"_origin") == 0 {
+				op.ReqOrigin = true
+			}
 		case shMatch:
 			op.Serve = []blkRef{want}
-			nmsg = 3
 		case shNonMatch:
-			if rapid.IntRange(0, 3).Draw(rt, l+"_randreq") == 0 {
+			switch rapid.IntRange(0, 5).Draw(rt, l+"_randreq") {
+			case 0, 1:
 				// the requested hash belongs to no block at all
-				h := rapid.SliceOfN(rapid.Byte(), 32, 32).Draw(rt, l+"_randhash")
-				op.ReqHash = hex.EncodeToString(h)
+				op.ReqHash = randHash(l + "_randhash")
 				op.ReqIsRand = true
 				op.Serve = []blkRef{want}
-			} else {
+			case 2:
+				op.ReqOrigin = true
+				op.Serve = []blkRef{want}
+			default:
 				op.Serve = []blkRef{other(l + "_other")}
 			}
-			nmsg = 3
 		case shSeveral:
 			n := rapid.IntRange(2, 4).Draw(rt, l+"_n")
 			pos := rapid.IntRange(-1, n-1).Draw(rt, l+"_matchpos") // -1: the requested block is not among them
@@ -189,9 +262,9 @@ func genC23Op(rt *rapid.T, i int, last bool, allowBad func(shape string) bool) c
 					op.Serve = append(op.Serve, other(fmt.Sprintf("%s_o%d", l, j)))
 				}
 			}
-			nmsg = n + 2
 		}
 	}
+	nmsg := len(opMessages(op))
 	flushAll := rapid.IntRange(0, 2).Draw(rt, l+"_flushmode")
 	for j := 0; j < nmsg; j++ {
 		switch flushAll {
@@ -205,6 +278,104 @@ func genC23Op(rt *rapid.T, i int, last bool, allowBad func(shape string) bool) c
 		op.GapUs = append(op.GapUs, rapid.SampledFrom([]int{0, 0, 0, 1, 100, 2000}).Draw(rt, fmt.Sprintf("%s_gap%d", l, j)))
 	}
 	return op
+}
+
+// distinctWire makes the requests of one concurrent group distinguishable on
+// the wire (the server recognises a queued request by its points).
+func distinctWire(group []c23Op) {
+	for j := 1; j < len(group); j++ {
+		for tries := 0; tries < 8; tries++ {
+			clash := false
+			for k := 0; k < j; k++ {
+				if bytes.Equal(group[k].wire(), group[j].wire()) {
+					clash = true
+				}
+			}
+			if !clash {
+				break
+			}
+			if group[j].Kind == "range" {
+				group[j].EndSlot += uint64(j) + 1
+			} else {
+				group[j].ReqOrigin = false
+				group[j].ReqSlot += uint64(j) + 1
+			}
+		}
+	}
+}
+
+func genC23Case(rt *rapid.T, thorough bool) c23Case {
+	cs := c23Case{
+		Raw:        rapid.Bool().Draw(rt, "raw"),
+		SkipValid:  rapid.IntRange(0, 3).Draw(rt, "skipvalid") == 0,
+		QueueGapUs: rapid.SampledFrom([]int{200, 1000, 3000}).Draw(rt, "queuegap"),
+	}
+	if cs.Raw {
+		cs.Scribble = rapid.Bool().Draw(rt, "scribble")
+	}
+	final := rapid.SampledFrom([]string{"", "", "", "", "", "", "", "cberr", "silent"}).Draw(rt, "final")
+	genEBB = thorough && final != "silent"
+	defer func() { genEBB = false }()
+	nsteps := rapid.IntRange(1, 4).Draw(rt, "nsteps")
+	n := 0
+	for st := 0; st < nsteps; st++ {
+		if st > 0 && rapid.IntRange(0, 9).Draw(rt, fmt.Sprintf("restart%d", st)) == 0 {
+			cs.Ops = append(cs.Ops, c23Op{Kind: "restart"})
+		}
+		gsize := rapid.SampledFrom([]int{1, 1, 1, 1, 1, 2, 2, 3}).Draw(rt, fmt.Sprintf("gsize%d", st))
+		var group []c23Op
+		for j := 0; j < gsize; j++ {
+			op := genC23Op(rt, n)
+			n++
+			op.Queued = j > 0
+			group = append(group, op)
+		}
+		distinctWire(group)
+		cs.Ops = append(cs.Ops, group...)
+	}
+	switch final {
+	case "cberr":
+		op := genC23Op(rt, n)
+		op.Kind, op.Shape, op.Serve = "range", shBatch, nil
+		nb := rapid.IntRange(1, 5).Draw(rt, "cberr_n")
+		for j := 0; j < nb; j++ {
+			op.Serve = append(op.Serve, genRef(rt, fmt.Sprintf("cberr_b%d", j)))
+		}
+		op.ReqOrigin, op.ReqHash, op.ReqSlot, op.EndHash, op.EndSlot = false, specialHashes[0], 5, specialHashes[1], 6
+		op.CbErrAt = rapid.IntRange(1, nb).Draw(rt, "cberr_at")
+		fillFlush(&op)
+		probe := genC23Op(rt, n+1)
+		cs.Ops = append(cs.Ops, op, probe)
+	case "silent":
+		op := genC23Op(rt, n)
+		op.Silent, op.Serve, op.Flush, op.GapUs = true, nil, nil, nil
+		cs.Ops = append(cs.Ops, op)
+		if rapid.Bool().Draw(rt, "silent_queued") {
+			q := genC23Op(rt, n+1)
+			q.Queued = true
+			g := []c23Op{op, q}
+			distinctWire(g)
+			cs.Ops = append(cs.Ops, g[1])
+		}
+	}
+	if !cs.Raw {
+		return cs
+	}
+	// raw callback only: synthetic blocks whose MsgBlock straddles the 64 KiB
+	// segment boundary
+	if rapid.IntRange(0, 11).Draw(rt, "pads") == 0 {
+		for i := range cs.Ops {
+			if cs.Ops[i].Kind == "range" && cs.Ops[i].Shape == shBatch && cs.Ops[i].CbErrAt == 0 && !cs.Ops[i].Silent {
+				k := rapid.IntRange(1, 3).Draw(rt, "npads")
+				for j := 0; j < k; j++ {
+					cs.Ops[i].Serve = append(cs.Ops[i].Serve, blkRef{Pad: rapid.IntRange(65500, 65540).Draw(rt, "pad")})
+				}
+				fillFlush(&cs.Ops[i])
+				break
+			}
+		}
+	}
+	return cs
 }
 
 // ---- raw block-fetch server -------------------------------------------------------
@@ -252,18 +423,23 @@ func serveOp(p *rawpeer.Peer, op c23Op) error {
 type bfEvent struct {
 	Done  bool
 	Type  uint
-	Bytes []byte
-	Hash  []byte // library's Hash() (decoded callback only)
+	Bytes []byte       // copy taken inside the callback
+	Hash  []byte       // library's Hash() (decoded callback only)
+	keep  []byte       // raw callback: the very slice the library handed over (not copied)
+	obj   ledger.Block // decoded callback: the very object the library handed over
 }
+
+var errHarnessCallback = errors.New("harness: the block callback refuses this block")
 
 type bfLog struct {
 	mu      sync.Mutex
 	cond    *sync.Cond
 	ev      []bfEvent
 	delayUs int
+	errAt   int // the callback that makes the log this long returns an error (0: never)
 }
 
-func (l *bfLog) add(e bfEvent) {
+func (l *bfLog) add(e bfEvent) error {
 	l.mu.Lock()
 	d := l.delayUs
 	l.mu.Unlock()
@@ -271,9 +447,13 @@ func (l *bfLog) add(e bfEvent) {
 		time.Sleep(time.Duration(d) * time.Microsecond)
 	}
 	l.mu.Lock()
+	defer l.mu.Unlock()
 	l.ev = append(l.ev, e)
 	l.cond.Broadcast()
-	l.mu.Unlock()
+	if l.errAt > 0 && len(l.ev) == l.errAt {
+		return errHarnessCallback
+	}
+	return nil
 }
 
 func (l *bfLog) waitLen(n int, d time.Duration) []bfEvent {
@@ -292,60 +472,59 @@ func (l *bfLog) waitLen(n int, d time.Duration) []bfEvent {
 
 const (
 	c23ShortTimeout = 300 * time.Millisecond
-	c23HangBound    = 7 * time.Second  // > 20 x the scaled protocol timeouts
-	c23GoodBound    = 10 * time.Second // liveness bound for well-behaved servers (expected latency: milliseconds)
-)
-
-// hangs already paid for per known finding key (each costs c23HangBound of wall
-// time and leaks the wedged goroutines), per process
-var (
-	c23HangMu   sync.Mutex
-	c23HangSeen = map[string]int{}
+	c23GoodBound    = 10 * time.Second // liveness bound (expected latency: milliseconds), scaled by volume and measured machine load
 )
 
 func hangKey(shape string) string { return "getblock:" + shape + ":hang" }
 
+// fixedTB lets the deterministic sweep run the case runner outside rapid: a
+// failure marks the test failed (the recorder then reports the violation it
+// stored) and aborts the case.
+type fixedTB struct{ t *testing.T }
+type fixedAbort struct{}
+
+func (f fixedTB) Fatalf(format string, a ...any) { f.t.Errorf(format, a...); panic(fixedAbort{}) }
+func (f fixedTB) Helper()                        {}
+
+func runFixed(fn func()) (ok bool) {
+	defer func() {
+		if p := recover(); p != nil {
+			if _, is := p.(fixedAbort); !is {
+				panic(p)
+			}
+			ok = false
+		}
+	}()
+	fn()
+	return true
+}
+
 func TestC23(t *testing.T) {
 	limitShrinkTime()
 	rec := evi.New(t, "C23", evi.Exploration,
-		"sequences of 1..4 block-fetch requests on one real NtN connection against a scripted raw server: range requests answered by NoBlocks or StartBatch + 0..12 real blocks (fixtures of every era and salted variants with distinct header hashes) + BatchDone; single-block requests for the hash of a generated block (or a random hash) answered by one of {NoBlocks; StartBatch+BatchDone; +the requested block; +a different block; +2..4 blocks}; generated segment grouping, segment size, read chunking, yields, callback delays, decoded vs raw callback. Non-trivial: a range with >= 2 blocks or a single-block request whose answer contains a block. Distinct by (op kinds, shapes, served block identities, requested hash, grouping).")
+		"histories of block-fetch requests on one real NtN connection (one client re-used for the whole history) against a scripted raw server: 1..4 steps, each a single request or a group of 2..3 requests issued concurrently from different goroutines while the first is still unanswered (the server's answer is gated), optionally Stop()/Start() of the client between steps, optionally ended by a block callback that returns an error or by a server that never answers (300 ms timeout) with a request queued behind. Range requests are answered by NoBlocks or StartBatch + 0..12 real blocks (fixtures of every era, salted variants with distinct header hashes, raw mode also synthetic blocks around the 64 KiB segment boundary) + BatchDone; single-block requests for the hash of a generated block, a random / all-zero / all-0xff hash or the origin are answered by one of {NoBlocks; StartBatch+BatchDone; +the requested block; +a different block; +2..4 blocks} at any position of the history; slots biased to 0, 1, 2^32, 2^63, 2^64-1, ranges with start == end or from the origin; generated segment grouping, segment size, read chunking, yields, callback delays, decoded vs raw callback (optionally overwriting what it was handed). A deterministic sweep of ~40 fixed histories (concurrent pairs/triples, special points, segment-boundary blocks, failure steps followed by more requests, restarts) runs first at every seed. Non-trivial: a range with >= 2 blocks or a single-block request whose answer contains a block. Distinct by (op kinds, grouping, shapes, served block identities, requested points).")
 	defer rec.Finish()
 	rec.Assume(
 		"blake2b-256 (golang.org/x/crypto) over the header item located by the harness CBOR parser is the reference block hash",
-		"bounded liveness: a call that has not returned 7 s after the server finished its answer, with the client's batch-start and block timeouts scaled to 300 ms, is reported as a hang (goroutine dump attached); a well-behaved server is given 10 s plus 1 s per 20 kB of served blocks",
-		"a misbehaving answer is always the last request on its connection: the client may answer misbehaviour by closing the connection",
+		"bounded liveness: a call that has not returned within 10 s (+1 s per 20 kB of served blocks, times a load factor 1..6 measured from the duration of the connection set-up) of the server finishing its answer is reported as a hang (goroutine dump attached)",
+		"after a misbehaving answer, a callback error or a timeout the client may close the connection; the remaining calls must then fail instead of hanging or succeeding. If it keeps the connection, later requests must get exactly their own answers",
+		"Stop() followed by Start() of the block-fetch client between two requests gives a usable client on the same connection",
 	)
-	maxKnownHangs := rec.Pick(1, 2)
 
-	allowBad := func(shape string) bool {
-		if shape == shNonMatch {
-			return true
+	for _, fc := range fixedC23Cases() {
+		fc := fc
+		ok := runFixed(func() {
+			rec.Class("fixed_sweep")
+			runC23(fixedTB{t}, rec, fc.cs, nil, nil)
+		})
+		if !ok {
+			fmt.Printf("fixed C23 case %q failed\n", fc.name)
+			return
 		}
-		k := hangKey(shape)
-		if !rec.IsKnown(k) {
-			return true
-		}
-		c23HangMu.Lock()
-		defer c23HangMu.Unlock()
-		return c23HangSeen[k] < maxKnownHangs
 	}
 
 	rec.Check(func(rt *rapid.T) {
-		cs := c23Case{
-			Raw:       rapid.Bool().Draw(rt, "raw"),
-			SkipValid: rapid.IntRange(0, 3).Draw(rt, "skipvalid") == 0,
-		}
-		nops := rapid.IntRange(1, 4).Draw(rt, "nops")
-		// the last request first: whether it misbehaves decides the timeouts of
-		// the whole connection and with them whether the big EBB may be served
-		genEBB = false
-		last := genC23Op(rt, nops-1, true, allowBad)
-		genEBB = rec.Thorough() && !isBadShape(last)
-		for i := 0; i < nops-1; i++ {
-			cs.Ops = append(cs.Ops, genC23Op(rt, i, false, allowBad))
-		}
-		genEBB = false
-		cs.Ops = append(cs.Ops, last)
+		cs := genC23Case(rt, rec.Thorough())
 		pc, ps := genPlan(rt, "client"), genPlan(rt, "server")
 		if cs.hasEBB() {
 			// A 650 KiB block through 1..9-byte reads or in 700-byte segments
@@ -364,33 +543,51 @@ func TestC23(t *testing.T) {
 	})
 }
 
+type bfResult struct {
+	blk ledger.Block
+	err error
+}
+
+type bfCall struct {
+	op       c23Op
+	idx      int
+	wire     []byte
+	resCh    chan bfResult
+	launched bool
+	done     bool
+}
+
 func runC23(rt tb, rec *evi.Recorder, cs c23Case, pc, ps rawpeer.Plan) {
 	log := &bfLog{}
 	log.cond = sync.NewCond(&log.mu)
+	to := 30 * time.Second
+	if cs.hasSilent() {
+		// only a server that never answers needs the scaled-down timeout
+		to = c23ShortTimeout
+	}
 	opts := []blockfetch.BlockFetchOptionFunc{
-		blockfetch.WithBatchStartTimeout(c23ShortTimeout),
-		blockfetch.WithBlockTimeout(c23ShortTimeout),
+		blockfetch.WithBatchStartTimeout(to),
+		blockfetch.WithBlockTimeout(to),
 		blockfetch.WithBatchDoneFunc(func(blockfetch.CallbackContext) error {
-			log.add(bfEvent{Done: true})
+			_ = log.add(bfEvent{Done: true})
 			return nil
 		}),
 	}
-	lastBad := isBadShape(cs.Ops[len(cs.Ops)-1])
-	if !lastBad {
-		// only misbehaviour needs the scaled-down timeouts; a well-behaved
-		// conversation keeps generous ones so machine load cannot fail it
-		opts[0] = blockfetch.WithBatchStartTimeout(30 * time.Second)
-		opts[1] = blockfetch.WithBlockTimeout(30 * time.Second)
-	}
 	if cs.Raw {
 		opts = append(opts, blockfetch.WithBlockRawFunc(func(_ blockfetch.CallbackContext, typ uint, raw []byte) error {
-			log.add(bfEvent{Type: typ, Bytes: append([]byte(nil), raw...)})
-			return nil
+			e := bfEvent{Type: typ, Bytes: append([]byte(nil), raw...)}
+			if cs.Scribble {
+				for i := range raw {
+					raw[i] = 0xEE
+				}
+			} else {
+				e.keep = raw
+			}
+			return log.add(e)
 		}))
 	} else {
 		opts = append(opts, blockfetch.WithBlockFunc(func(_ blockfetch.CallbackContext, typ uint, b ledger.Block) error {
-			log.add(bfEvent{Type: typ, Bytes: append([]byte(nil), b.Cbor()...), Hash: b.Hash().Bytes()})
-			return nil
+			return log.add(bfEvent{Type: typ, Bytes: append([]byte(nil), b.Cbor()...), Hash: b.Hash().Bytes(), obj: b})
 		}))
 	}
 	cfg, err := blockfetch.NewConfig(opts...)
@@ -398,12 +595,16 @@ func runC23(rt tb, rec *evi.Recorder, cs c23Case, pc, ps rawpeer.Plan) {
 		rt.Fatalf("harness: NewConfig: %v", err)
 	}
 	cfg.SkipBlockValidation = cs.SkipValid
+	t0 := time.Now()
 	s, err := dial(true, pc, ps, ouroboros.WithBlockFetchConfig(cfg))
 	if err != nil {
 		rt.Fatalf("harness: dial: %v", err)
 	}
 	defer s.close()
 	client := s.oc.BlockFetch().Client
+	// load factor: the connection set-up takes 1-3 ms on an idle machine
+	lf := time.Since(t0) / (10 * time.Millisecond)
+	lf = max(1, min(lf, 6))
 
 	timedOut := func() bool {
 		for _, e := range s.connErrors() {
@@ -413,6 +614,7 @@ func runC23(rt tb, rec *evi.Recorder, cs c23Case, pc, ps rawpeer.Plan) {
 		}
 		return false
 	}
+	gone := func() bool { return len(s.connErrors()) > 0 || s.peer.ReadErr() != nil }
 	fail := func(key, what string, extra map[string]any) bool {
 		obj := map[string]any{"case": cs, "conn_errors": s.connErrors()}
 		for k, v := range extra {
@@ -421,151 +623,191 @@ func runC23(rt tb, rec *evi.Recorder, cs c23Case, pc, ps rawpeer.Plan) {
 		return rec.Fail(rt, key, what, obj)
 	}
 
-	// liveness bound for well-behaved answers: 10 s plus 1 s per 20 kB of blocks
-	// served on the connection (fragmented reads, decoding, machine load)
 	vol := 0
 	for _, op := range cs.Ops {
 		for _, r := range op.Serve {
 			vol += len(r.get().Bytes)
 		}
 	}
-	goodBound := c23GoodBound + time.Duration(min(vol/20000, 110))*time.Second
+	bound := (c23GoodBound + time.Duration(min(vol/20000, 110))*time.Second) * lf
+
 	wantLog := 0 // callback events expected so far
 	var desc []string
 	nontrivial := false
-	for i, op := range cs.Ops {
+	mayDie := false // the server misbehaved / a callback failed / a timeout fired: the client may close the connection
+	dead := false   // ... and it did
+	cbFailed := false
+	type kept struct {
+		b    ledger.Block
+		want blk
+	}
+	var results []kept
+
+	launch := func(c *bfCall) {
+		c.launched = true
+		start, end := c.op.points()
+		go func() {
+			var r bfResult
+			if c.op.Kind == "range" {
+				r.err = client.GetBlockRange(start, end)
+			} else {
+				r.blk, r.err = client.GetBlock(start)
+			}
+			// the caller owns the hash buffers it passed in: overwrite them
+			for i := range start.Hash {
+				start.Hash[i] = 0xA5
+			}
+			for i := range end.Hash {
+				end.Hash[i] = 0x5A
+			}
+			c.resCh <- r
+		}()
+	}
+	await := func(c *bfCall, d time.Duration) (bfResult, bool) {
+		select {
+		case r := <-c.resCh:
+			return r, true
+		case <-time.After(d):
+			return bfResult{}, false
+		}
+	}
+
+	// judge one call after its request was seen on the wire; false = stop the case
+	judge := func(c *bfCall) bool {
+		op := c.op
 		log.mu.Lock()
 		log.delayUs = op.CbDelayUs
+		if op.CbErrAt > 0 {
+			log.errAt = wantLog + op.CbErrAt
+		}
 		log.mu.Unlock()
-		reqHash, _ := hex.DecodeString(op.ReqHash)
-		start := pcommon.NewPoint(op.ReqSlot, reqHash)
-		end := start
-		if op.Kind == "range" {
-			eh, _ := hex.DecodeString(op.EndHash)
-			end = pcommon.NewPoint(op.EndSlot, eh)
+		rec.Class(op.Kind + ":" + op.Shape)
+		desc = append(desc, opDesc(op))
+		rec.Eval()
+		served := make([]blk, len(op.Serve))
+		for j, r := range op.Serve {
+			served[j] = r.get()
 		}
-		type result struct {
-			blk ledger.Block
-			err error
-		}
-		resCh := make(chan result, 1)
-		go func() {
-			if op.Kind == "range" {
-				resCh <- result{nil, client.GetBlockRange(start, end)}
-			} else {
-				b, err := client.GetBlock(start)
-				resCh <- result{b, err}
+		if op.Silent {
+			rec.Class("silent_server")
+			res, ok := await(c, bound)
+			mayDie, dead = true, true
+			if !ok {
+				fail(op.Kind+":silent-server:hang", fmt.Sprintf("the call did not return within %v although the server never answered and the client's batch-start timeout is %v", bound, c23ShortTimeout),
+					map[string]any{"goroutines": goroutineDump(fmt.Sprintf("%p", client), "blockfetch")})
+				return false
 			}
-		}()
-		// the request as seen on the wire must carry the points the caller passed
-		req, err := s.peer.NextMsg(protoBlockFetch, false, c23GoodBound)
-		if err != nil {
-			select {
-			case r := <-resCh:
-				if timedOut() {
-					rec.Class("discarded_load_timeout")
-					return
-				}
-				fail(fmt.Sprintf("request-not-sent:op%d", i), fmt.Sprintf("no RequestRange on the wire (%v); call returned err=%v", err, r.err), nil)
-			default:
-				fail(fmt.Sprintf("request-not-sent:op%d", i), fmt.Sprintf("no RequestRange on the wire within %v: %v", c23GoodBound, err), map[string]any{"goroutines": goroutineDump("gouroboros")})
+			if res.err == nil {
+				return fail(op.Kind+":silent-server:returned-as-success", "the call returned success although the server never answered", nil)
 			}
-			return
-		}
-		wantReq := xcbor.A(xcbor.U(0), pointNode(start.Slot, start.Hash), pointNode(end.Slot, end.Hash)).Encode()
-		if !sameValue(req, wantReq) {
-			if !fail("request-mismatch", fmt.Sprintf("RequestRange on the wire %x, want the data of %x", req, wantReq), nil) {
-				return
-			}
+			return true
 		}
 		if err := serveOp(s.peer, op); err != nil {
 			// the client closed the connection while the answer was being
 			// written; the outcome of the call is judged below as usual
 			rec.Class("server_write_failed_connection_closed")
 		}
-		rec.Class(op.Kind + ":" + op.Shape)
-		desc = append(desc, opDesc(op))
-
-		bound := goodBound
 		if isBadShape(op) {
-			bound = c23HangBound
+			mayDie = true
 		}
-		var res result
-		hung := false
-		select {
-		case res = <-resCh:
-		case <-time.After(bound):
-			hung = true
-		}
-		rec.Eval()
-
-		served := make([]blk, len(op.Serve))
-		for j, r := range op.Serve {
-			served[j] = r.get()
-		}
+		res, ok := await(c, bound)
+		hung := !ok
 
 		if op.Kind == "range" {
 			if hung {
 				fail("range:"+op.Shape+":call-hang", fmt.Sprintf("GetBlockRange did not return within %v of a complete %s answer", bound, op.Shape),
-					map[string]any{"goroutines": goroutineDump("gouroboros")})
-				return
+					map[string]any{"goroutines": goroutineDump(fmt.Sprintf("%p", client), "blockfetch")})
+				return false
 			}
 			if op.Shape == shNoBlocks {
 				if res.err == nil {
 					rec.Class("range_noblocks_returned_nil")
 				}
-				continue
+				return true
 			}
 			if res.err != nil {
 				if timedOut() {
 					rec.Class("discarded_load_timeout")
-					return
+					return false
+				}
+				if mayDie && gone() {
+					dead = true
+					return true
 				}
 				fail("range:batch:error", fmt.Sprintf("GetBlockRange failed against a well-behaved server: %v", res.err), nil)
-				return
+				return false
 			}
-			wantLog += len(served) + 1
-			evs := log.waitLen(wantLog, goodBound)
 			if len(served) >= 2 {
 				nontrivial = true
 			}
+			if op.CbErrAt > 0 {
+				// blocks up to the refused one are delivered faithfully; afterwards the
+				// client may give up the connection
+				evs := log.waitLen(wantLog+op.CbErrAt, bound)
+				got := evs[min(wantLog, len(evs)):]
+				mayDie, cbFailed = true, true
+				if len(got) < op.CbErrAt {
+					fail("range:batch:missing-callback", fmt.Sprintf("range request: only %d of the %d block callbacks before the refused block fired", len(got), op.CbErrAt), map[string]any{"callbacks": evDesc(got), "goroutines": goroutineDump(fmt.Sprintf("%p", client), "blockfetch")})
+					return false
+				}
+				for j := 0; j < op.CbErrAt; j++ {
+					if msg := cmpBatch(got[j:j+1], served[j:j+1], cs.Raw); msg != "" && !strings.HasPrefix(msg, "missing-batchdone") {
+						fail("range:batch:"+strings.SplitN(msg, ":", 2)[0], fmt.Sprintf("range request, callback %d: %s", j, msg), map[string]any{"callbacks": evDesc(got)})
+						return false
+					}
+				}
+				deadline := time.Now().Add(2 * time.Second * lf)
+				for !gone() && time.Now().Before(deadline) {
+					time.Sleep(time.Millisecond)
+				}
+				dead = gone()
+				if !dead {
+					rec.Class("callback_error_connection_kept")
+				}
+				wantLog = len(log.waitLen(0, 0))
+				return true
+			}
+			wantLog += len(served) + 1
+			evs := log.waitLen(wantLog, bound)
 			got := evs[min(wantLog-len(served)-1, len(evs)):]
 			if msg := cmpBatch(got, served, cs.Raw); msg != "" {
 				if len(evs) < wantLog && timedOut() {
 					rec.Class("discarded_load_timeout")
-					return
+					return false
+				}
+				if len(evs) < wantLog && mayDie && gone() {
+					dead = true
+					return true
 				}
 				extra := map[string]any{"callbacks": evDesc(got)}
 				if len(evs) < wantLog {
-					extra["goroutines"] = goroutineDump("gouroboros")
+					extra["goroutines"] = goroutineDump(fmt.Sprintf("%p", client), "blockfetch")
 				}
 				fail("range:batch:"+strings.SplitN(msg, ":", 2)[0], "range request: "+msg, extra)
-				return
+				return false
 			}
-			continue
+			return true
 		}
 
 		// ---- single-block request ----
 		if len(served) > 0 {
 			nontrivial = true
 		}
+		reqHash, _ := hex.DecodeString(op.ReqHash)
+		if op.ReqOrigin {
+			reqHash = nil
+		}
 		if hung {
-			k := hangKey(op.Shape)
-			c23HangMu.Lock()
-			c23HangSeen[k]++
-			c23HangMu.Unlock()
 			dump := goroutineDump(fmt.Sprintf("%p", client), "blockfetch")
 			// does closing the connection release the caller?
 			s.close()
 			after := "GetBlock still blocked 2 s after Connection.Close()"
-			select {
-			case r := <-resCh:
+			if r, ok := await(c, 2*time.Second); ok {
 				after = fmt.Sprintf("GetBlock returned err=%v only after Connection.Close()", r.err)
-			case <-time.After(2 * time.Second):
 			}
-			fail(k, fmt.Sprintf("GetBlock did not return within %v (client batch-start/block timeouts %v) after the server answered %s; %s", bound, cfg.BlockTimeout, shapeWire(op), after),
+			fail(hangKey(op.Shape), fmt.Sprintf("GetBlock did not return within %v (client batch-start/block timeouts %v) after the server answered %s; %s", bound, cfg.BlockTimeout, shapeWire(op), after),
 				map[string]any{"goroutines": dump})
-			return
+			return false
 		}
 		switch op.Shape {
 		case shMatch:
@@ -573,39 +815,291 @@ func runC23(rt tb, rec *evi.Recorder, cs c23Case, pc, ps rawpeer.Plan) {
 			if res.err != nil {
 				if timedOut() {
 					rec.Class("discarded_load_timeout")
-					return
+					return false
+				}
+				if mayDie && gone() {
+					dead = true
+					return true
 				}
 				fail("getblock:matching-block:error", fmt.Sprintf("GetBlock failed although the server sent exactly the requested block: %v", res.err), nil)
-				return
+				return false
 			}
 			if res.blk == nil || !bytes.Equal(res.blk.Cbor(), want.Bytes) || !bytes.Equal(res.blk.Hash().Bytes(), reqHash) {
 				fail("getblock:matching-block:wrong-block", fmt.Sprintf("GetBlock returned a block that is not the one served (hash %s, want %s)", blkHash(res.blk), op.ReqHash), nil)
-				return
+				return false
 			}
+			results = append(results, kept{res.blk, want})
 		default:
 			if res.err == nil {
-				rh := "nil"
-				if res.blk != nil {
-					rh = blkHash(res.blk)
-				}
-				what := fmt.Sprintf("GetBlock(hash %s) returned success (block hash %s) after the server answered %s", op.ReqHash, rh, shapeWire(op))
+				what := fmt.Sprintf("GetBlock(hash %s) returned success (block hash %s) after the server answered %s", op.ReqHash, blkHash(res.blk), shapeWire(op))
 				if !fail("getblock:"+op.Shape+":returned-as-success", what, nil) {
-					return
+					return false
 				}
 			} else {
 				rec.Class("single:" + op.Shape + ":error_ok")
 			}
 		}
+		return true
 	}
+
+	// the remaining calls of a connection the client has given up must fail
+	drainDead := func(calls []*bfCall) bool {
+		for _, c := range calls {
+			if c.done {
+				continue
+			}
+			if !c.launched {
+				launch(c)
+			}
+			c.done = true
+			rec.Eval()
+			rec.Class("call_on_closed_connection")
+			res, ok := await(c, bound)
+			if !ok {
+				fail("after-connection-end:"+c.op.Kind+":hang", fmt.Sprintf("the connection has ended (%v) but the %s call did not return within %v", s.connErrors(), c.op.Kind, bound),
+					map[string]any{"goroutines": goroutineDump(fmt.Sprintf("%p", client), "blockfetch")})
+				return false
+			}
+			if res.err == nil && !(c.op.Kind == "range" && c.op.Shape == shNoBlocks) {
+				if !fail("after-connection-end:"+c.op.Kind+":returned-as-success", fmt.Sprintf("the connection has ended (%v) and the server answered nothing, yet the %s call returned success", s.connErrors(), c.op.Kind), nil) {
+					return false
+				}
+			}
+		}
+		return true
+	}
+
+	for i := 0; i < len(cs.Ops); {
+		if cs.Ops[i].Kind == "restart" {
+			i++
+			if dead {
+				continue
+			}
+			rec.Class("restart")
+			desc = append(desc, "restart")
+			fin := make(chan error, 1)
+			go func() { fin <- client.Stop() }()
+			select {
+			case <-fin:
+			case <-time.After(bound):
+				fail("restart:stop-hang", fmt.Sprintf("blockfetch Client.Stop() between two requests did not return within %v", bound), map[string]any{"goroutines": goroutineDump(fmt.Sprintf("%p", client), "blockfetch")})
+				return
+			}
+			client.Start()
+			continue
+		}
+		j := i + 1
+		for j < len(cs.Ops) && cs.Ops[j].Queued {
+			j++
+		}
+		var calls []*bfCall
+		for k := i; k < j; k++ {
+			calls = append(calls, &bfCall{op: cs.Ops[k], idx: k, wire: cs.Ops[k].wire(), resCh: make(chan bfResult, 1)})
+		}
+		i = j
+		if len(calls) > 1 {
+			rec.Class(fmt.Sprintf("concurrent_group_of_%d", len(calls)))
+			desc = append(desc, "{")
+		}
+		if dead {
+			if !drainDead(calls) {
+				return
+			}
+			continue
+		}
+		launch(calls[0])
+		for answered := 0; answered < len(calls); {
+			if dead {
+				if !drainDead(calls) {
+					return
+				}
+				break
+			}
+			req, err := s.peer.NextMsg(protoBlockFetch, false, bound)
+			if err != nil {
+				if mayDie && gone() {
+					dead = true
+					continue
+				}
+				if timedOut() {
+					rec.Class("discarded_load_timeout")
+					return
+				}
+				fail(fmt.Sprintf("request-not-sent:op%d", calls[0].idx), fmt.Sprintf("no RequestRange on the wire within %v (%v) although %d call(s) are waiting", bound, err, len(calls)-answered),
+					map[string]any{"goroutines": goroutineDump(fmt.Sprintf("%p", client), "blockfetch")})
+				return
+			}
+			if sameValue(req, []byte{0x81, 0x01}) {
+				rec.Class("client_done_seen") // from a restart
+				continue
+			}
+			if answered == 0 && len(calls) > 1 {
+				// the first request is on the wire and unanswered: now the other
+				// callers arrive and queue behind it
+				for _, c := range calls[1:] {
+					launch(c)
+					runtime.Gosched()
+				}
+				time.Sleep(time.Duration(cs.QueueGapUs) * time.Microsecond * lf)
+			}
+			var cur *bfCall
+			for _, c := range calls {
+				if c.launched && !c.done && sameValue(req, c.wire) {
+					cur = c
+					break
+				}
+			}
+			if cur == nil {
+				var want []string
+				for _, c := range calls {
+					if c.launched && !c.done {
+						want = append(want, fmt.Sprintf("%x", c.wire))
+					}
+				}
+				fail("request-mismatch", fmt.Sprintf("RequestRange on the wire %x carries the points of none of the waiting calls (their requests: %v)", req, want), nil)
+				return
+			}
+			cur.done = true
+			answered++
+			if !judge(cur) {
+				return
+			}
+		}
+		if len(calls) > 1 {
+			desc = append(desc, "}")
+		}
+	}
+
 	// no callback may have fired beyond the served batches
-	if evs := log.waitLen(wantLog+1, 0); len(evs) != wantLog {
+	evs := log.waitLen(wantLog+1, 0)
+	if !cbFailed && len(evs) != wantLog {
 		fail("range:extra-callback", fmt.Sprintf("%d callback events, want %d", len(evs), wantLog), map[string]any{"callbacks": evDesc(evs)})
 		return
 	}
+	// everything handed to a callback or returned by GetBlock still is what it was
+	for k, e := range evs {
+		if e.keep != nil && !bytes.Equal(e.keep, e.Bytes) {
+			fail("callback-value-changed-later:raw", fmt.Sprintf("the slice handed to block callback %d (%d bytes, %s..) was modified after the callback returned (now %s..)", k, len(e.Bytes), short(e.Bytes), short(e.keep)), nil)
+			return
+		}
+		if e.obj != nil && (!bytes.Equal(e.obj.Cbor(), e.Bytes) || !bytes.Equal(e.obj.Hash().Bytes(), e.Hash)) {
+			fail("callback-value-changed-later:block", fmt.Sprintf("the block handed to block callback %d changed after the callback returned", k), nil)
+			return
+		}
+	}
+	for k, r := range results {
+		if !bytes.Equal(r.b.Cbor(), r.want.Bytes) || !bytes.Equal(r.b.Hash().Bytes(), r.want.Hash) {
+			fail("getblock:result-changed-later", fmt.Sprintf("the block returned by GetBlock call %d changed after later requests on the same client", k), nil)
+			return
+		}
+	}
 	if nontrivial {
-		d := fmt.Sprintf("raw=%v %s", cs.Raw, strings.Join(desc, " | "))
+		d := fmt.Sprintf("raw=%v scribble=%v %s", cs.Raw, cs.Scribble, strings.Join(desc, " | "))
 		rec.NonTrivial(d, map[string]any{"case": cs})
 	}
+}
+
+// ---- deterministic sweep ------------------------------------------------------------
+
+type namedC23 struct {
+	name string
+	cs   c23Case
+}
+
+func fixedC23Cases() []namedC23 {
+	ref := func(f int, salt uint64) blkRef { return blkRef{Fixture: f, Salt: salt} }
+	single := func(shape string, want blkRef, serve ...blkRef) c23Op {
+		w := want.get()
+		op := c23Op{Kind: "single", Shape: shape, ReqHash: hex.EncodeToString(w.Hash), ReqSlot: w.Slot, Serve: serve}
+		if shape == shMatch {
+			op.Serve = []blkRef{want}
+		}
+		fillFlush(&op)
+		return op
+	}
+	rng := func(serve ...blkRef) c23Op {
+		op := c23Op{Kind: "range", Shape: shBatch, Serve: serve, ReqHash: specialHashes[0], ReqSlot: 10, EndHash: specialHashes[1], EndSlot: 20}
+		if len(serve) > 0 {
+			f, e := serve[0].get(), serve[len(serve)-1].get()
+			if f.Hash != nil && e.Hash != nil {
+				op.ReqHash, op.ReqSlot, op.EndHash, op.EndSlot = hex.EncodeToString(f.Hash), f.Slot, hex.EncodeToString(e.Hash), e.Slot
+			}
+		}
+		fillFlush(&op)
+		return op
+	}
+	queued := func(op c23Op) c23Op { op.Queued = true; return op }
+	var out []namedC23
+	add := func(name string, raw bool, ops ...c23Op) {
+		for i := 0; i < len(ops); {
+			j := i + 1
+			for j < len(ops) && ops[j].Queued {
+				j++
+			}
+			distinctWire(ops[i:j])
+			i = j
+		}
+		out = append(out, namedC23{name, c23Case{Raw: raw, QueueGapUs: 3000, Ops: ops}})
+	}
+	for _, raw := range []bool{false, true} {
+		m := fmt.Sprintf("/raw=%v", raw)
+		// (1) concurrent callers on one client: the in-flight request keeps its own answer
+		add("conc:single+range"+m, raw, single(shMatch, ref(2, 0)), queued(rng(ref(0, 0), ref(3, 1), ref(5, 0))), single(shMatch, ref(4, 2)))
+		add("conc:range+single"+m, raw, rng(ref(4, 0), ref(6, 0)), queued(single(shMatch, ref(1, 0))), rng(ref(7, 0)))
+		add("conc:single+single"+m, raw, single(shMatch, ref(2, 7)), queued(single(shMatch, ref(2, 8))))
+		add("conc:range+range"+m, raw, rng(ref(8, 0), ref(9, 0)), queued(rng(ref(9, 1), ref(8, 1), ref(0, 2))))
+		add("conc:three"+m, raw, single(shMatch, ref(3, 0)), queued(rng(ref(1, 0), ref(1, 1))), queued(single(shMatch, ref(5, 5))))
+		add("conc:noblocks+range+single"+m, raw, single(shNoBlocks, ref(3, 0)), queued(rng(ref(2, 0))), queued(single(shMatch, ref(6, 1))))
+		// (3) failure steps followed by more requests
+		add("fail-steps"+m, raw,
+			single(shNoBlocks, ref(0, 0)), single(shEmpty, ref(1, 0)), single(shMatch, ref(1, 0)),
+			single(shNonMatch, ref(2, 0), ref(2, 1)), single(shMatch, ref(2, 0)),
+			single(shSeveral, ref(3, 0), ref(3, 0), ref(3, 1)), rng(ref(3, 0), ref(4, 0)),
+			func() c23Op { o := rng(); o.Shape = shNoBlocks; fillFlush(&o); return o }(), single(shMatch, ref(5, 0)), rng(), rng(ref(6, 0)))
+		add("restart"+m, raw, single(shMatch, ref(2, 0)), c23Op{Kind: "restart"}, rng(ref(0, 0), ref(1, 0)), c23Op{Kind: "restart"}, single(shMatch, ref(7, 0)),
+			single(shNoBlocks, ref(7, 0)), c23Op{Kind: "restart"}, single(shMatch, ref(8, 0)))
+		cbe := rng(ref(4, 0), ref(5, 0), ref(6, 0))
+		cbe.CbErrAt = 2
+		add("callback-error"+m, raw, single(shMatch, ref(1, 0)), cbe, single(shMatch, ref(2, 0)), rng(ref(3, 0)))
+		sil := single(shMatch, ref(2, 0))
+		sil.Silent = true
+		add("silent-server-with-queued"+m, raw, single(shMatch, ref(1, 0)), sil, queued(rng(ref(3, 0))), single(shMatch, ref(4, 0)))
+	}
+	// (2) special values
+	for k, slot := range specialSlots {
+		o := single(shMatch, ref(k%nSmall(), 0))
+		o.ReqSlot = slot
+		r := rng(ref((k+1)%nSmall(), 0))
+		r.ReqSlot, r.ReqHash = slot, specialHashes[k%2]
+		r.EndSlot, r.EndHash = specialSlots[(k+2)%len(specialSlots)], specialHashes[(k+1)%2]
+		same := rng(ref((k+2)%nSmall(), 3))
+		same.ReqSlot, same.ReqHash = slot, specialHashes[k%2]
+		same.EndSlot, same.EndHash = same.ReqSlot, same.ReqHash
+		nm := single(shNonMatch, ref(1, 0), ref(1, 0))
+		nm.ReqSlot, nm.ReqHash, nm.ReqIsRand = slot, specialHashes[k%2], true
+		add(fmt.Sprintf("special:slot=%d", slot), k%2 == 0, o, r, same, nm, single(shMatch, ref(3, uint64(k))))
+	}
+	orig := rng(ref(0, 0), ref(1, 0))
+	orig.ReqOrigin = true
+	zero := rng(ref(2, 0))
+	zero.ReqSlot, zero.ReqHash = 0, specialHashes[0] // [0, 00..00] is not the origin
+	so := single(shNoBlocks, ref(0, 0))
+	so.ReqOrigin = true
+	sn := single(shNonMatch, ref(0, 0), ref(0, 0))
+	sn.ReqOrigin = true
+	add("special:origin", false, orig, zero, so, sn, single(shMatch, ref(4, 0)))
+	var many []blkRef
+	for k := 0; k < 12; k++ {
+		many = append(many, ref(k%nSmall(), uint64(k/nSmall())))
+	}
+	add("special:batch-sizes", true, rng(), rng(ref(5, 0)), rng(many...), rng(), single(shMatch, ref(0, 0)))
+	// blocks whose MsgBlock ends just before / on / after the 65535-byte segment boundary
+	var pads []blkRef
+	for _, p := range []int{65505, 65515, 65518, 65519, 65520, 65521, 65522, 65523, 65524, 65530} {
+		pads = append(pads, blkRef{Pad: p})
+	}
+	add("special:segment-boundary", true, rng(pads...), single(shMatch, ref(1, 0)))
+	return out
 }
 
 func blkHash(b ledger.Block) string {
